@@ -65,6 +65,8 @@ def run(ck):
     if corr and not ck.violations:
         last["broken"] = "correspondence dec/ver model vs implementation on malformed input"
         ck.violation("correspondence model/implementation no longer checks on %d malformed inputs (e.g. result codes), no property violation found" % corr, last, found_input=False)
+    if ck.tier == "thorough":
+        production_scale(ck)     # 40 MiB and > 4 GiB with the production constants (props/filegen.py)
     return finish_proof(ck, rule="malformed stream: empty, shorter than magic/header at every boundary, right magic with random rest, in-range and out-of-range mode bytes with >= 74 bytes, random garbage of many lengths; plus every mutation class of C05 on %d valid files (mode-byte-in-range excluded: outside the domain), plus the valid files, plus authentic files built outside the program (arbitrary body incl. empty / ragged / any pad byte, right tag); decrypt and verify, T in {1,2,4,16}; thorough tier repeats everything under ASan+UBSan. distinct = distinct (class, length, first 12 bytes)" % len(files),
                         assumptions=["memory safety of the C++ is observed (sanitizers in the thorough tier), not proved: the model carries every index/size computation and maps undefined behaviour to Crash",
                                      "ASan's new-delete-type-mismatch report is switched off: Hashmaster/buffer64/Aesmode objects are deleted through base pointers without virtual destructors on EVERY operation (formally undefined, no access outside a buffer; noted in DESIGN Part C as an observation, not a finding of C11)", "leak detection off (hmac::getres leaks h1/h2 by design of its comma-delete)"])
